@@ -595,6 +595,8 @@ func checkC15(w *World, r *Run) {
 	ruleKeep := r.Rule("bytes-delivered-with-an-error-are-kept", "F1",
 		"every Read wrapper of the repository returns 0 after its inner Read only where the inner n is known to be 0, and ioutils.ReadChunk extends its buffer by n before looking at err (io.Reader may return n > 0 together with io.EOF)", 8)
 	checkReadersKeepBytes(w, r, ruleKeep)
+	ruleScope5 := r.Rule("outbox-listing-subqueries-are-scoped", "F4", "every SELECT inside a statement over the part outbox table carries its own outbox_id predicate (GetPartIds of an outbox part store must see exactly its own pending entries)", 1)
+	checkEverySubqueryScoped(w, r, ruleScope5)
 	r.NotCovered("byte equality across chunk, segment and stripe boundaries, for every content and size (runtime values); the cloud-drive and sftp stores' remote behaviour; GetPartIds exactness; the empty-part behaviour of the SQL part store; encryption is C16, erasure-coding fault tolerance C17, the cache C19, the outbox C18")
 }
 
@@ -918,6 +920,7 @@ func checkC17(w *World, r *Run) {
 		})
 		r.Check(good && cnt > 0, ruleQuorum, "a shard is read only if its header parses and matches the store's geometry and position", of.Pos(), "parse ok ∧ data/total/stripe equal the configuration ∧ idx == i", "a shard with a foreign or damaged header is read as if it belonged to this part at this position")
 	}
+	checkErasureConfigArgOrder(w, r, ruleQuorum)
 	checkTruncatingCreate(w, r)
 	r.NotCovered("Reed-Solomon arithmetic; stale shards whose frames are internally consistent (an older write of the same part id); healing writes; every combination of faults — the rules decide that nothing unauthenticated is fed to the reconstruction and that the quorum test guards it")
 }
